@@ -408,13 +408,13 @@ package boltz
 //@   requires cursor != nil && 0 <= bcLen[cursor] && bcLen[cursor] < MaxInt64 && sortedKeys(bcKeys[cursor], bcLen[cursor])
 //@   assume forall(i, 0 <= i && i < bcLen[cursor] ==> sel(bcKeys[cursor], i) == prepend(fieldType, untag(sel(bcKeys[cursor], i))))
 //@   modifies bcPos[cursor]
-//@   ensures[first] result != nil && istype(result, *TypedForwardBoltCursor) && as(result, *TypedForwardBoltCursor).cursor == cursor && bcPos[cursor] == 0
+//@   ensures[first] result != nil && istype(result, *TypedForwardBoltCursor) && as(result, *TypedForwardBoltCursor).cursor == cursor && as(result, *TypedForwardBoltCursor).fieldType == fieldType && bcPos[cursor] == 0
 //@ func NewTypedReverseBoltCursor
 //@   props C14
 //@   requires cursor != nil && 0 <= bcLen[cursor] && bcLen[cursor] < MaxInt64 && sortedKeys(bcKeys[cursor], bcLen[cursor])
 //@   assume forall(i, 0 <= i && i < bcLen[cursor] ==> sel(bcKeys[cursor], i) == prepend(fieldType, untag(sel(bcKeys[cursor], i))))
 //@   modifies bcPos[cursor]
-//@   ensures[last] result != nil && istype(result, *TypedReverseBoltCursor) && as(result, *TypedReverseBoltCursor).cursor == cursor && bcPos[cursor] == bcLen[cursor] - 1
+//@   ensures[last] result != nil && istype(result, *TypedReverseBoltCursor) && as(result, *TypedReverseBoltCursor).cursor == cursor && as(result, *TypedReverseBoltCursor).fieldType == fieldType && bcPos[cursor] == bcLen[cursor] - 1
 //@ func NewBoltCursor
 //@   props C14
 //@   requires cursor != nil && 0 <= bcLen[cursor] && bcLen[cursor] < MaxInt64 && sortedKeys(bcKeys[cursor], bcLen[cursor])
@@ -458,8 +458,8 @@ package boltz
 //@ func (*setIndex).OpenValueCursor
 //@   props C14
 //@   pure
-//@   ensures[typed-directed-or-empty] result != nil && (istype(result, emptyCursor) || (forward && istype(result, *TypedForwardBoltCursor) && as(result, *TypedForwardBoltCursor).fieldType == TypeString) || (!forward && istype(result, *TypedReverseBoltCursor) && as(result, *TypedReverseBoltCursor).fieldType == TypeString))
+//@   ensures[typed-directed-or-empty] result != nil && (istype(result, ast.emptyCursor) || (forward && istype(result, *TypedForwardBoltCursor) && as(result, *TypedForwardBoltCursor).fieldType == TypeString) || (!forward && istype(result, *TypedReverseBoltCursor) && as(result, *TypedReverseBoltCursor).fieldType == TypeString))
 //@ func (*setIndex).OpenKeyCursor
 //@   props C14
 //@   pure
-//@   ensures[raw-directed-or-empty] result != nil && (istype(result, emptyCursor) || (forward && istype(result, *ForwardBoltCursor)) || (!forward && istype(result, *ReverseBoltCursor)))
+//@   ensures[raw-directed-or-empty] result != nil && (istype(result, ast.emptyCursor) || (forward && istype(result, *ForwardBoltCursor)) || (!forward && istype(result, *ReverseBoltCursor)))
